@@ -32,8 +32,8 @@ TIERS = {
 # ---- design pass: bounded configurations of Cluster.tla (module, SPECIFICATION, constants) ----
 ALL_KINDS = '{"unready", "fail", "restart", "dup", "node"}'
 
-def mc(module, spec, nodes="MC_NodeSeq", fits="MC_InitFits", strat="MC_Strat", env=0, edit=1, ann=1, agecap=1, per_node=3, tmpls="MC_TmplSeq", kinds=ALL_KINDS):
-    return dict(module=module, spec=spec, nodes=nodes, fits=fits, strat=strat, env=env, edit=edit, ann=ann, agecap=agecap, per_node=per_node, tmpls=tmpls, kinds=kinds)
+def mc(module, spec, nodes="MC_NodeSeq", fits="MC_InitFits", strat="MC_Strat", env=0, edit=1, ann=1, agecap=1, per_node=3, tmpls="MC_TmplSeq", kinds=ALL_KINDS, fault=0):
+    return dict(module=module, spec=spec, nodes=nodes, fits=fits, strat=strat, env=env, edit=edit, ann=ann, agecap=agecap, per_node=per_node, tmpls=tmpls, kinds=kinds, fault=fault)
 
 MC_CONFIGS = {
     # name: (config, expected wall time quick machine)
@@ -47,6 +47,8 @@ MC_CONFIGS = {
     "canary_t2": mc("MC_canary", "SpecCanary", env=0, edit=1, ann=2, agecap=2),
     "canary_fail_q": mc("MC_canary", "SpecCanary", strat="MC_StratFailFast", env=1, edit=1, ann=0, agecap=2, kinds='{"restart"}'),
     "canary_fail_t": mc("MC_canary", "SpecCanary", strat="MC_StratFailFast", env=1, edit=1, ann=1, agecap=2),
+    "fine_q": mc("MC_canary", "SpecFine", strat="MC_StratFailFast", env=1, edit=1, ann=0, agecap=2, kinds='{"restart"}', fault=1),
+    "fine_t": mc("MC_canary", "SpecFine", strat="MC_StratFailFast", env=1, edit=2, ann=1, agecap=2, kinds='{"restart", "fail"}', fault=2),
     "canary_manual_q": mc("MC_canary", "SpecCanary", strat="MC_StratManual", env=0, edit=1, ann=1, agecap=1),
 }
 
@@ -56,12 +58,14 @@ LIVE_CONFIGS = {
     "live_rollout_t": (mc("MC_rollout", "LiveSpec", env=1, edit=1, ann=0), "L_C02"),
     "live_canary_q": (mc("MC_canary", "LiveSpecCanary", env=0, edit=1, ann=0, agecap=2), "L_C02"),
     "live_canary_t": (mc("MC_canary", "LiveSpecCanary", env=1, edit=1, ann=0, agecap=2), "L_C02"),
+    "live_fine_q": (mc("MC_canary", "LiveSpecFine", strat="MC_StratFailFast", env=1, edit=1, ann=0, agecap=2, kinds='{"restart"}', fault=1), "L_C07"),
     "live_c07_q": (mc("MC_canary", "LiveSpecCanary", strat="MC_StratFailFast", env=1, edit=1, ann=0, agecap=2, kinds='{"restart"}'), "L_C07"),
     "live_c07_t": (mc("MC_canary", "LiveSpecCanary", strat="MC_StratFailFast", env=1, edit=1, ann=1, agecap=2, kinds='{"restart", "fail"}'), "L_C07"),
 }
 LIVE = {
     "C02": {"quick": ["live_rollout_q", "live_canary_q"], "thorough": ["live_rollout_t", "live_canary_t"]},
-    "C07": {"quick": ["live_c07_q"], "thorough": ["live_c07_q", "live_c07_t"]},
+    "C07": {"quick": ["live_fine_q"], "thorough": ["live_fine_q", "live_c07_t"]},
+    "C11": {"quick": ["live_fine_q"], "thorough": ["live_fine_q"]},
 }
 
 # property -> {tier: [(config name, [M_ properties], [invariants])]}
@@ -71,7 +75,8 @@ MC = {
     "C04": {"quick": [("canary_q", ["M_C04"], [])], "thorough": [("canary_t", ["M_C04"], [])]},
     "C05": {"quick": [("canary_q", ["M_C05"], [])], "thorough": [("canary_t", ["M_C05"], []), ("canary_manual_q", ["M_C05"], [])]},
     "C06": {"quick": [("canary_q", ["M_C06"], [])], "thorough": [("canary_t", ["M_C06"], [])]},
-    "C07": {"quick": [("canary_fail_q", ["M_C07"], [])], "thorough": [("canary_fail_t", ["M_C07", "M_C05"], []), ("canary_t", ["M_C07"], [])]},
+    "C11": {"quick": [("fine_q", ["M_C05", "M_C13"], ["TypeOK", "I_Rollback", "HalfDoneIsVisible"])], "thorough": [("fine_t", ["M_C05", "M_C13", "M_C04"], ["TypeOK", "I_Rollback", "HalfDoneIsVisible"])]},
+    "C07": {"quick": [("canary_fail_q", ["M_C07"], []), ("fine_q", ["M_C07"], ["I_Rollback", "HalfDoneIsVisible"])], "thorough": [("canary_fail_t", ["M_C07", "M_C05"], []), ("canary_t", ["M_C07"], [])]},
     "C08": {"quick": [("rollout_q", ["M_C08"], [])], "thorough": [("rollout_t", ["M_C08"], []), ("canary_t", ["M_C08"], [])]},
     "C09": {"quick": [("rollout_q", ["M_C09"], [])], "thorough": [("rollout_t", ["M_C09"], [])]},
     "C13": {"quick": [("rollout_q", ["M_C13"], ["I_C13m"])], "thorough": [("rollout_t", ["M_C13"], ["I_C13m"]), ("canary_t", ["M_C13"], ["I_C13m"])]},
